@@ -134,6 +134,13 @@ func localTableRowsOf(v ssa.Value) (rows []ssa.Value, elemAddr *tableAccess, roo
 				return nil, nil, nil, false
 			}
 			cur = y.X
+		case *ssa.Global:
+			// a package-level table that nothing but its initialiser ever writes: read the literal it was built from
+			lit := globalTableLiteral(y)
+			if lit == nil || elemAddr == nil {
+				return nil, nil, nil, false
+			}
+			root = lit
 		case *ssa.IndexAddr:
 			if elemAddr == nil {
 				elemAddr = &tableAccess{Index: y.Index, X: y.X, At: y.Block()}
@@ -593,4 +600,74 @@ func sameColumn(a, b []ssa.Value) bool {
 		}
 	}
 	return true
+}
+
+// globalTableLiteral: g is a package-level array that is assigned once, whole, by the package initialiser from a
+// literal built in a local variable, and is otherwise only read (whole, or element by element): returns that
+// local variable, whose element stores give the rows.
+func globalTableLiteral(g *ssa.Global) *ssa.Alloc {
+	c := gCtx
+	if c == nil || !inModule2(g) {
+		return nil
+	}
+	if _, isArr := g.Type().(*types.Pointer).Elem().Underlying().(*types.Array); !isArr {
+		return nil
+	}
+	var lit *ssa.Alloc
+	nst := 0
+	ok := true
+	var readOnly func(v ssa.Value, d int) bool
+	readOnly = func(v ssa.Value, d int) bool {
+		if d > 5 {
+			return false
+		}
+		for _, rr := range referrersOf(v) {
+			switch y := rr.(type) {
+			case *ssa.DebugRef, *ssa.UnOp:
+			case *ssa.FieldAddr:
+				if !readOnly(y, d+1) {
+					return false
+				}
+			case *ssa.IndexAddr:
+				if y.X != v || !readOnly(y, d+1) {
+					return false
+				}
+			default:
+				return false
+			}
+		}
+		return true
+	}
+	for _, fn := range c.LibFuncs() {
+		isInit := fn.Synthetic != "" && fn.Name() == "init" && fn.Parent() == nil
+		eachInstr(fn, func(in ssa.Instruction) {
+			for _, op := range in.Operands(nil) {
+				if op == nil || *op != ssa.Value(g) {
+					continue
+				}
+				switch x := in.(type) {
+				case *ssa.UnOp, *ssa.DebugRef:
+				case *ssa.Store:
+					if x.Addr != ssa.Value(g) || !isInit {
+						ok = false
+						continue
+					}
+					nst++
+					if u, isU := x.Val.(*ssa.UnOp); isU && u.Op == token.MUL {
+						lit, _ = u.X.(*ssa.Alloc)
+					}
+				case *ssa.IndexAddr:
+					if x.X != ssa.Value(g) || !readOnly(x, 0) {
+						ok = false
+					}
+				default:
+					ok = false
+				}
+			}
+		})
+	}
+	if !ok || nst != 1 {
+		return nil
+	}
+	return lit
 }
